@@ -45,7 +45,8 @@ def main():
     tier = "thorough" if "--thorough" in sys.argv else "quick"
     jobs = []
     if "--seeded" in sys.argv:
-        for d in sorted(glob.glob(os.path.join(HERE, "seeded", "*"))):
+        for d in sorted(glob.glob(os.path.join(HERE, "seeded", "*", ""))):
+            d = d.rstrip("/")
             meta = json.load(open(os.path.join(d, "meta.json")))
             if args and meta["property"] not in args:
                 continue
